@@ -5,8 +5,8 @@
    Spec:  Spec/PyGrammar.v (a reader for the displayed tokens written from the language reference; norm = the
           documented spelling changes). *)
 From Coq Require Import ZArith NArith List Bool.
-From PydoctorVerif Require Import Base.Sexp Base.PyExpr Gen.TablesC15 Model.StrEsc Model.Wrap Spec.PyGrammar
-     Model.ExprPrint Proofs.PyGrammarProofs Proofs.ExprPrintProofs.
+From PydoctorVerif Require Import Base.Sexp Base.PyExpr Gen.TablesC15 Model.StrEsc Model.Wrap Spec.PyGrammar Spec.PyLex
+     Model.ExprPrint Proofs.PyGrammarProofs Proofs.PyGrammarFuel Proofs.WrapProofs Proofs.StrEscProofs Proofs.ExprPrintProofs.
 Import ListNotations.
 
 (* Tables.prec_wf, on the precedence table as pydoctor sees it NOW (astor.op_util): for every parent context and every
@@ -19,12 +19,19 @@ Proof. exact prec_wf. Qed.
 (* Read back what was printed: for every expression tree of any depth over the modelled forms (literals, delegated
    text, names, dotted names, unary/binary/boolean operators, tuple/list/set/dict displays, subscripts, calls with
    positional/starred/keyword/double-starred arguments, starred items), printed under any parent context pc,
-   the reader gives back exactly the tree (up to norm: set([...]) spelling, opaque delegated attributes) and consumes
-   every token -- once the fuel is at least some n (the reader never returns a different tree).
+   the reader -- run with its own fuel, 8 * number of tokens + 8, which is proved to be enough (Proofs/PyGrammarFuel.v) --
+   gives back exactly the tree (up to norm: set([...]) spelling, opaque delegated attributes) and consumes every token.
    Guards: the tree is one CPython's parser can produce (wf_source), it is not a bare Starred, and it contains no
    one-element tuple display outside a subscript index (the recorded defect, see C15_one_tuple_refuted).
    pp is what pydoctor prints whenever ExprPrint.modelled e (no call to re.compile, which has its own colouriser). *)
 Theorem C15_read_print :
+  forall (e : expr) (pc : pctx),
+    good_pc pc -> wf_source e = true -> is_starred e = false -> no_one_tuple e = true ->
+    read (pp pc e) = Some (norm e).
+Proof. exact read_print. Qed.
+
+(* the same with any larger fuel: the answer does not depend on the fuel once there is enough of it *)
+Theorem C15_read_print_any_fuel :
   forall (e : expr) (pc : pctx),
     good_pc pc -> wf_source e = true -> is_starred e = false -> no_one_tuple e = true ->
     exists n, forall f, n <= f -> rd f L_test (pp pc e) = Some (norm e, []).
@@ -54,3 +61,100 @@ Theorem C15_one_tuple_refuted :
     wf_source e = true /\ is_starred e = false /\ modelled e = true /\
     read (pp PNone e) = Some (EName [98%N]) /\ norm e = ETuple [EName [98%N]].
 Proof. exists (ETuple [EName [98%N]]). vm_compute. repeat split. Qed.
+
+(* The symbols the colouriser writes for the operators (read from the if/elif chains of _colorize_ast_unary_op /
+   _binary_op / _bool_op into Gen/TablesC15.v) are Python's spelling (Spec/PyLex.tok_text) of the token that pp prints
+   for the same operator: `not` with a space after it, `and` / `or` between spaces, the others bare. *)
+Theorem C15_operator_spelling :
+  (forall b : binop, spelled (btok b) [] [] (bop_text b)) /\
+  (forall u : unop, spelled (utok u) [] (match u with UNot => [32%N] | _ => [] end) (uop_text u)) /\
+  (forall o : boolop, spelled (otok o) [32%N] [32%N] (boolop_text o)).
+Proof. exact operator_spelling. Qed.
+
+(* _str_escape: for EVERY string of code points without NUL -- quotes, backslashes, control characters, non-ASCII and
+   lone surrogates (the backslashreplace branch) included -- the text between single quotes, read as a Python string
+   literal (Spec/PyLex.read_sq), is the string.  Uses the escape table regenerated from the source. *)
+Theorem C15_str_escape_roundtrip :
+  forall s : text, forallb (fun c => negb (N.eqb c 0)) s = true -> read_sq (39%N :: str_escape s ++ [39%N]) = Some s.
+Proof. exact str_escape_roundtrip. Qed.
+
+Example C15_str_escape_roundtrip_nonvacuous :
+  let s := [105; 116; 39; 115; 92; 10; 9; 233; 55296; 128512]%N in
+  forallb (fun c => negb (N.eqb c 0)) s = true /\
+  str_escape s = [105; 116; 92; 39; 115; 92; 92; 92; 110; 92; 116; 233; 92; 117; 100; 56; 48; 48; 128512]%N.
+Proof. vm_compute. split; reflexivity. Qed.
+
+(* with a lone surrogate present every surrogate is shown as \udXXX and nothing else changes *)
+Theorem C15_str_escape_surrogates :
+  forall s : text, existsb is_surrogate (flat_map enc s) = true ->
+                   str_escape s = flat_map (fun c => flat_map backslashreplace1 (enc c)) s.
+Proof. exact str_escape_surrogates. Qed.
+
+(* Genuine defects on the unchanged tree (known_findings/C15.json):
+   C15-str-nul: a NUL cannot be written raw in Python source, and _str_escape leaves it raw;
+   C15-bytes-quote: _bytes_escape = repr(b)[2:-1] leaves the quote unescaped when repr chose double quotes. *)
+Theorem C15_str_escape_nul_refuted :
+  exists s : text, read_sq (39%N :: str_escape s ++ [39%N]) <> Some s.
+Proof. exists [0%N]. vm_compute. discriminate. Qed.
+
+Theorem C15_bytes_quote_refuted :
+  exists b : text, b = [105; 116; 39; 115]%N /\ bytes_escape b = b /\ read_sq (39%N :: bytes_escape b ++ [39%N]) = None.
+Proof. exists [105; 116; 39; 115]%N. vm_compute. repeat split. Qed.
+
+(* _output: for every text, tag, state and setting (any linelen, maxlines, charpos -- also beyond linelen --, linebreakok)
+   the call only appends nodes; if it returns, deleting the LINEWRAP markers and the newline node after each gives back
+   exactly the text; if it raises _Maxlines/_Linebreak what was appended is, read the same way, a prefix of the text;
+   the fuel of the model never runs out. *)
+Theorem C15_wrap_conserves :
+  forall (p : params) (t : text) (k : nkind) (s : st),
+    plain_kind k = true ->
+    exists added, Wrap.res (fst (output p t k s)) = Wrap.res s ++ added /\
+                  match snd (output p t k s) with
+                  | None => unwrap added = t
+                  | Some OutOfFuel => False
+                  | Some _ => exists tl, t = unwrap added ++ tl
+                  end.
+Proof. exact output_conserves. Qed.
+
+Example C15_wrap_conserves_nonvacuous :
+  let p := Params 3 0 true in
+  let o := output p [97; 98; 99; 100; 101; 102; 103; 104]%N NText (St [] 2 1 true) in
+  snd o = None /\
+  Wrap.res (fst o) = [Nd NText [97%N]; LINEWRAP; NEWLINE; Nd NText [98; 99; 100]%N; LINEWRAP; NEWLINE;
+                 Nd NText [101; 102; 103]%N; LINEWRAP; NEWLINE; Nd NText [104%N]].
+Proof. vm_compute. split; reflexivity. Qed.
+
+(* colorize: for every tree of output calls and every setting, either the run ended normally -- is_complete is True
+   and the result is everything that was emitted -- or it was cut by _Maxlines/_Linebreak -- is_complete is False and
+   the result ENDS with the ellipsis marker (after a newline when line breaks are allowed).  Never a cut result
+   without the marker, never the marker with is_complete True. *)
+Theorem C15_truncation_marked :
+  forall (p : params) (c : cmd),
+    (c_complete (colorize p c) = true /\
+     exists s, exec p 0 c (init_st p) = (s, None) /\ c_nodes (colorize p c) = Wrap.res s) \/
+    (c_complete (colorize p c) = false /\
+     (exists s e, exec p 0 c (init_st p) = (s, Some e)) /\
+     exists ns, c_nodes (colorize p c) = ns ++ [ELLIPSIS] /\
+                (lbparam p = true -> exists s e, exec p 0 c (init_st p) = (s, Some e) /\ ns = Wrap.res s ++ [NEWLINE])).
+Proof. exact truncation_marked. Qed.
+
+Example C15_truncation_marked_nonvacuous :
+  let c := compile PNone (EList [nm 97; nm 98; nm 99]) in
+  c_complete (colorize (Params 2 2 true) c) = false /\
+  c_complete (colorize (Params 0 0 true) c) = true /\
+  nodes_text (c_nodes (colorize (Params 0 0 true) c)) = [91; 97; 44; 32; 98; 44; 32; 99; 93]%N.
+Proof. vm_compute. repeat split. Qed.
+
+(* colorize_inline_pyval (linelen None, linebreakok False; any maxlines): an expression whose names, numbers and
+   delegated texts contain no newline is never cut, and the text shown is exactly the flat text of its output calls. *)
+Theorem C15_inline_complete :
+  forall (e : expr) (pc : pctx) (ml : N),
+    simple_expr e = true ->
+    c_complete (colorize (Params 0 ml false) (compile pc e)) = true /\
+    c_fuel_ok (colorize (Params 0 ml false) (compile pc e)) = true /\
+    nodes_text (c_nodes (colorize (Params 0 ml false) (compile pc e))) = flat (compile pc e).
+Proof. exact inline_expr_complete. Qed.
+
+Example C15_inline_complete_nonvacuous :
+  simple_expr c15_sample = true /\ c_complete (colorize (Params 0 1 false) (compile PNone c15_sample)) = true.
+Proof. vm_compute. split; reflexivity. Qed.
